@@ -19,6 +19,9 @@ type SolveResult struct {
 	Output string // full solver output (model or reason)
 	// Per-solver statuses when several were raced.
 	All map[string]string
+	// Stage names the step of the decision procedure that produced the result
+	// (set by decideSplit; empty elsewhere).
+	Stage string
 }
 
 type SolverCfg struct {
@@ -98,16 +101,31 @@ func Solve(cfg *SolverCfg, script string, tag string) *SolveResult {
 			return res
 		}
 	}
+	// The race: every solver, and outside cross-checking the two z3 versions under
+	// further seeds as well. Queries that reach this stage still contain quantifiers,
+	// and whether z3's instantiation finds the proof within the limit depends on the
+	// seed; "unsat" under any seed is a proof.
 	type r struct{ name, st, out string }
-	solvers := []string{"z3-new", "cvc5", "z3"}
+	type job struct {
+		solver, label string
+		seed          int
+	}
+	jobs := []job{{"z3-new", "z3-new", cfg.Seed}, {"cvc5", "cvc5", cfg.Seed}, {"z3", "z3", cfg.Seed}}
+	if !cfg.CrossCheck {
+		for k := 1; k <= 3; k++ {
+			jobs = append(jobs, job{"z3-new", fmt.Sprintf("z3-new/seed+%d", k), cfg.Seed + k})
+		}
+		jobs = append(jobs, job{"z3", "z3/seed+1", cfg.Seed + 1})
+	}
+	solvers := jobs
 	ch := make(chan r, len(solvers))
 	ctx, cancel := context.WithCancel(context.Background())
 	defer cancel()
-	for _, s := range solvers {
-		go func(s string) {
-			st, out := runOne(ctx, s, file, cfg.TimeoutS, cfg.Seed)
-			ch <- r{s, st, out}
-		}(s)
+	for _, j := range jobs {
+		go func(j job) {
+			st, out := runOne(ctx, j.solver, file, cfg.TimeoutS, j.seed)
+			ch <- r{j.label, st, out}
+		}(j)
 	}
 	var decided *r
 	for i := 0; i < len(solvers); i++ {
@@ -129,7 +147,7 @@ func Solve(cfg *SolverCfg, script string, tag string) *SolveResult {
 		}
 	}
 	if decided != nil {
-		res.Status, res.Solver, res.Output = decided.st, decided.name, decided.out
+		res.Status, res.Solver, res.Output = decided.st, strings.SplitN(decided.name, "/", 2)[0], decided.out
 		return res
 	}
 	res.Ms = time.Since(start).Milliseconds()
